@@ -74,7 +74,7 @@ def value(name, consts, xs):
 
 
 def partials(name, consts, xs):
-    """[df/dx_k] as mpf: symmetric difference quotient with step 1e-15 max(1,|x|) evaluated with 50 digits
+    """[df/dx_k] as mpf: symmetric difference quotient with step 1e-15 |x| (1e-15 at x = 0) evaluated with 50 digits
     (truncation ~1e-30 times the third derivative, rounding ~1e-35 |f|: at least 25 correct digits for these
     analytic functions, two function evaluations per argument).  Validated against mpmath.diff in self_test()."""
     out = []
@@ -83,7 +83,8 @@ def partials(name, consts, xs):
         if name == 'gammasgn':
             return [mp.mpf(0) for _ in x0]
         for k in range(len(x0)):
-            h = mp.mpf(10) ** -15 * max(1, abs(x0[k]))
+            # step relative to the argument (a tiny argument next to a singularity needs a tiny step), one unit at the origin
+            h = mp.mpf(10) ** -15 * (abs(x0[k]) if x0[k] != 0 else 1)
             yp = list(x0)
             ym = list(x0)
             yp[k] = x0[k] + h
